@@ -437,7 +437,9 @@ impl<'a> Ctx<'a> {
                         } else if let (Some(p), Some(d)) = (pos, data) {
                             let p = p as usize;
                             let remaining = d.len().saturating_sub(p);
-                            if k > remaining {
+                            if p > d.len() {
+                                // already reported by the seek that produced this position
+                            } else if k > remaining {
                                 self.v("SFileReadFile reports more bytes than remain after the position the API last reported", format!("pos={p} len={} reported={k}", d.len()));
                             } else if buf.data()[..k] != d[p..p + k] {
                                 self.v("SFileReadFile bytes differ from the Rust API's bytes at the position the API last reported", format!("pos={p} n={n} k={k}"));
@@ -484,7 +486,7 @@ impl<'a> Ctx<'a> {
                             self.v("SFileSetFilePointer reports a position beyond the end of the file", format!("reported={p} len={l} call={}", a.label()));
                         }
                         if high.is_none() {
-                            // observed, not judged: an in-range target is reached exactly
+                            // a target inside [0,len] (only then: where an out-of-range seek is clamped to is not judged)
                             let target = match method {
                                 0 => Some(low as i64),
                                 1 => old.map(|o| o as i64 + low as i64),
@@ -493,7 +495,11 @@ impl<'a> Ctx<'a> {
                             };
                             if let Some(t) = target {
                                 if t >= 0 && t <= l as i64 {
-                                    self.cnt(if t as u64 == p { "inrange_seeks_exact" } else { "inrange_seeks_inexact_not_judged" });
+                                    if t as u64 == p {
+                                        self.cnt("inrange_seeks_exact");
+                                    } else {
+                                        self.v("SFileSetFilePointer does not land on a target inside the file", format!("call={} target={t} reported={p} len={l} previous={old:?}", a.label()));
+                                    }
                                 } else {
                                     self.cnt("out_of_range_seeks_clamped");
                                 }
@@ -925,7 +931,8 @@ impl<'a> Ctx<'a> {
     /// accepted and read like the Rust API; every handle the judged call invalidated must be refused
     pub fn probe(&mut self) {
         self.phase = "probe";
-        let tip = self.tip.clone();
+        let tip = if self.tip == "SFileCloseArchive" { " after SFileCloseArchive".to_string() } else { String::new() };
+        let mut flagged: Vec<H> = vec![];
         for (k, h, purged) in self.m.died_at_tip.clone() {
             let why = if purged { "its archive was closed" } else { "it was closed" };
             match k {
@@ -960,7 +967,8 @@ impl<'a> Ctx<'a> {
             self.mark("probe live file");
             let r = unsafe { s::SFileGetFileSize(hnd(*h), std::ptr::null_mut()) };
             if r == INVALID32 {
-                self.v(format!("a live file handle is no longer accepted after {tip}"), format!("handle={h}"));
+                self.v(format!("a live file handle is no longer accepted{tip}"), format!("handle={h}"));
+                flagged.push(*h);
                 continue;
             }
             if let Some(d) = data {
@@ -972,7 +980,7 @@ impl<'a> Ctx<'a> {
                 if p == 0 && ok {
                     let k = cnt.u32() as usize;
                     if k > d.len() || buf.data()[..k] != d[..k] {
-                        self.v(format!("a live file handle reads other bytes than the Rust API after {tip}"), format!("handle={h} k={k} len={}", d.len()));
+                        self.v(format!("a live file handle reads other bytes than the Rust API{tip}"), format!("handle={h} k={k} len={}", d.len()));
                     }
                     self.cnt("reads_compared_with_rust_api");
                 }
@@ -980,15 +988,15 @@ impl<'a> Ctx<'a> {
         }
         for (h, _) in &files {
             self.mark("probe SFileCloseFile(live)");
-            if !s::SFileCloseFile(hnd(*h)) {
-                self.v(format!("SFileCloseFile refuses a live file handle after {tip}"), format!("handle={h}"));
+            if !s::SFileCloseFile(hnd(*h)) && !flagged.contains(h) {
+                self.v(format!("SFileCloseFile refuses a live file handle{tip}"), format!("handle={h}"));
             }
         }
         let finds: Vec<H> = self.m.finds.iter().map(|f| f.h).collect();
         for h in &finds {
             self.mark("probe SFileFindClose(live)");
             if !unsafe { s::SFileFindClose(hnd(*h)) } {
-                self.v(format!("SFileFindClose refuses a live find handle after {tip}"), format!("handle={h}"));
+                self.v(format!("SFileFindClose refuses a live find handle{tip}"), format!("handle={h}"));
             }
         }
         let archs: Vec<H> = self.m.archs.iter().map(|a| a.h).collect();
@@ -999,7 +1007,7 @@ impl<'a> Ctx<'a> {
             let mut nb = Guarded::new(300);
             let a2 = unsafe { s::SFileGetArchiveName(hnd(*h), nb.ptr() as *mut libc::c_char, 300) };
             if !a1 && !a2 {
-                self.v(format!("a live archive handle is no longer accepted after {tip}"), format!("handle={h}"));
+                self.v(format!("a live archive handle is no longer accepted{tip}"), format!("handle={h}"));
             }
         }
         for h in &archs {
@@ -1007,7 +1015,7 @@ impl<'a> Ctx<'a> {
             if s::SFileCloseArchive(hnd(*h)) {
                 self.close_archive_model(*h, false);
             } else {
-                self.v(format!("SFileCloseArchive refuses a live archive handle after {tip}"), format!("handle={h}"));
+                self.v(format!("SFileCloseArchive refuses a live archive handle{tip}"), format!("handle={h}"));
             }
         }
         // everything the probe closed itself must now be refused
